@@ -1,14 +1,26 @@
 """C07 - no output from a run with unwaived warnings; existing files are never lost.
 
-spec/DeferredWriter.tla   directory + pending table + one action per file-system primitive of finalisation + Crash +
-                          Gate; PreExistingSafe as an invariant over every (crashed) state                (MC + SIM)
-spec/Trace_Writers.tla    TLC judges (a) directory snapshots around every library writer and (b) real
-                          bin/martinize2 runs with engineered warnings and -maxwarn lists                 (TRACE)
+spec/DeferredWriterOps.tla   pure operators: deferred open, the effect of every file-system primitive of finalisation, the
+                             first-free-backup rule, Steps / StateAfter / FinalOf, SafeOf (PreExistingSafe), FinalisedOf
+spec/DeferredWriter.tla      directory + pending table + one action per primitive + Crash + Gate, written with those
+                             operators; PreExistingSafe over every (crashed) state; StepsAgree / FinalAgrees tie the state
+                             machine to the closed forms the judge uses                                        (MC + SIM)
+spec/DeferredWriterJudge.tla TLC judges recorded histories of the REAL command line and of the process-wide writer with the
+                             same operators (harness/c07_cli.py: families cli / crash / lib)                     (TRACE)
+spec/Trace_Writers.tla       TLC judges (a) directory snapshots around every library writer and (b) real bin/martinize2
+                             SUBPROCESSES with engineered warnings and -maxwarn lists (exit status of the process, the
+                             directory, the temporary files left after the process has gone)                      (TRACE)
 
 spec -> code: every transition of the MC graph, and simulated behaviours of a larger instance, are replayed on a real
 (non-singleton) DeferredFileWriter in a scratch directory; finalisation prefixes and crashes are realised by halting
 write() at the k-th file-system primitive (wrappers installed on the names vermouth.file_writer uses); the sequence of
-primitives actually executed must be the model's action sequence and the directory must equal `fs`."""
+primitives actually executed must be the model's action sequence and the directory must equal `fs`.
+
+code -> spec (c07_cli.py): the real entry() of bin/martinize2 in forked processes, in directories that already hold the
+files the run writes and backups with gaps, for every warning / -maxwarn situation and path style; the same fault wrappers
+inside the command-line process (one forked child per crash point and exception kind); histories on the singleton through
+every access route.  The worker processes of that part are started first and run beside the replay; each runs AND judges
+its share (own TLC process) and returns a summary."""
 import collections
 import multiprocessing as mp
 import os
@@ -519,37 +531,56 @@ verification: force-field defined warning for {BB[resname]}{BB[resid]}
 '''
 
 
-def _gate_run(args):
+def gate_start(args):
+    """Start one real bin/martinize2 SUBPROCESS (the only place where a real process exit is observed); returns a handle."""
     n_alt, maxwarn, preexisting, idx = args[:4]
     ffwarn = len(args) > 4 and args[4]
     root = tempfile.mkdtemp(prefix='c07g_', dir=_SCRATCH)
+    tmpd = tempfile.mkdtemp(prefix='c07gt_', dir=_SCRATCH)
+    with open(os.path.join(root, 'in.pdb'), 'w') as fh:
+        fh.write(make_gate_pdb(n_alt))
+    if ffwarn:
+        # a force-field defined [ warning ] entry: reported as a warning of type "model" when the output is prepared
+        os.makedirs(os.path.join(root, 'ff', 'martini3001'))
+        with open(os.path.join(root, 'ff', 'martini3001', 'verif_extra.ff'), 'w') as fh:
+            fh.write(EXTRA_FF)
+    outs = ['cg.pdb', 'topol.top', 'molecule_0.itp']
+    if preexisting:
+        for f in outs:
+            with open(os.path.join(root, f), 'w') as fh:
+                fh.write('precious %s\n' % f)
+    before = {k: v for k, v in dir_ids(root).items() if not k.startswith('ff' + os.sep)}
+    cmd = [sys.executable, os.path.join(REPO, 'bin', 'martinize2'), '-f', 'in.pdb', '-x', 'cg.pdb', '-o', 'topol.top',
+           '-ff', 'martini3001', '-nt', '-noscfix']
+    for group in maxwarn:
+        cmd += ['-maxwarn'] + group
+    if ffwarn:
+        cmd += ['-ff-dir', 'ff']
+    env = dict(os.environ)
+    env['PYTHONPATH'] = REPO
+    env['TMPDIR'] = tmpd          # the writer's temporary files: what is left of them after the process has gone?
+    err = open(os.path.join(tmpd + '.stderr'), 'w+')
+    p = subprocess.Popen(cmd, cwd=root, env=env, stdout=subprocess.DEVNULL, stderr=err, text=True)
+    return {'p': p, 'root': root, 'tmpd': tmpd, 'err': err, 'before': before, 'outs': outs, 'preexisting': preexisting,
+            'maxwarn': maxwarn, 'cmd': cmd, 't0': __import__('time').time()}
+
+
+def gate_finish(h):
+    p, root = h['p'], h['root']
     try:
-        with open(os.path.join(root, 'in.pdb'), 'w') as fh:
-            fh.write(make_gate_pdb(n_alt))
-        if ffwarn:
-            # a force-field defined [ warning ] entry: reported as a warning of type "model" when the output is prepared
-            os.makedirs(os.path.join(root, 'ff', 'martini3001'))
-            with open(os.path.join(root, 'ff', 'martini3001', 'verif_extra.ff'), 'w') as fh:
-                fh.write(EXTRA_FF)
-        outs = ['cg.pdb', 'topol.top', 'molecule_0.itp']
-        if preexisting:
-            for f in outs:
-                with open(os.path.join(root, f), 'w') as fh:
-                    fh.write('precious %s\n' % f)
-        before = {k: v for k, v in dir_ids(root).items() if not k.startswith('ff' + os.sep)}
-        cmd = [sys.executable, os.path.join(REPO, 'bin', 'martinize2'), '-f', 'in.pdb', '-x', 'cg.pdb', '-o', 'topol.top',
-               '-ff', 'martini3001', '-nt', '-noscfix']
-        for group in maxwarn:
-            cmd += ['-maxwarn'] + group
-        if ffwarn:
-            cmd += ['-ff-dir', 'ff']
-        env = dict(os.environ)
-        env['PYTHONPATH'] = REPO
-        p = subprocess.run(cmd, cwd=root, env=env, stdout=subprocess.PIPE, stderr=subprocess.PIPE, text=True, timeout=600)
+        try:
+            p.wait(timeout=900)
+        except subprocess.TimeoutExpired:
+            p.kill()
+            raise tlc.MachineryError('martinize2 subprocess timed out: %s' % ' '.join(h['cmd'][2:]))
+        h['err'].seek(0)
+        stderr = h['err'].read()
+        h['err'].close()
+        before, outs, preexisting, maxwarn = h['before'], h['outs'], h['preexisting'], h['maxwarn']
         after = {k: v for k, v in dir_ids(root).items() if not k.startswith('ff' + os.sep)}
         counts = collections.Counter()
         above = 0
-        for line in p.stderr.splitlines():
+        for line in stderr.splitlines():
             m = re.match(r'\s*(WARNING|ERROR|CRITICAL) - (\S+) - ', line)
             if m and m.group(1) == 'WARNING':
                 counts[m.group(2)] += 1
@@ -573,9 +604,15 @@ def _gate_run(args):
         return {'kind': 'gate', 'counts': dict(counts) or {'none': 0}, 'above': above, 'specs': specs, 'exit': p.returncode,
                 'new': new, 'changed': changed, 'lost': lost, 'outs': outs, 'preexisting': preexisting,
                 'backups_ok': backups_ok, 'outs_present': all(f in after for f in outs),
-                'argv': ' '.join(cmd[2:]), 'stderr_tail': p.stderr[-300:]}
+                'tmp_left': sorted(dir_ids(h['tmpd'])),
+                'argv': ' '.join(h['cmd'][2:]), 'stderr_tail': stderr[-300:]}
     finally:
         shutil.rmtree(root, ignore_errors=True)
+        shutil.rmtree(h['tmpd'], ignore_errors=True)
+        try:
+            os.remove(h['tmpd'] + '.stderr')
+        except OSError:
+            pass
 
 
 def judge(events):
@@ -588,15 +625,63 @@ def judge(events):
 # ---------------------------------------------------------------- driver
 def run(tier, seed, ev, vd):
     global _SCRATCH
+    from . import c07_cli
     _SCRATCH = tlc.scratch('c07fs_')
     quick = tier == 'quick'
+    # the command-line / singleton families: worker processes started before anything else (no thread exists yet); they run
+    # beside the model checking and the replay below and are collected at the end
+    # C07_PARTS=mc,sim,writers,gate,hist selects parts of the check (debugging / mutation testing only; default: all)
+    parts = set(os.environ.get('C07_PARTS', 'mc,sim,writers,gate,hist').split(','))
+    famdir = os.path.join(_SCRATCH, 'cli')
+    os.makedirs(famdir)
+    family = c07_cli.Family(tier, seed, famdir, nworkers=tlc.NCPU) if 'hist' in parts else None
+    gate_matrix = [
+        (0, [], True), (2, [], True), (2, [['2']], True), (2, [['pdb-alternate:1'], ['1']], True),
+        (3, [['pdb-alternate:2', '1']], False), (1, [['pdb-alternate']], True),
+        (0, [], True, True), (0, [['model:1']], True, True), (1, [['pdb-alternate']], True, True),
+    ]
+    if not quick:
+        gate_matrix += [(3, [['pdb-alternate:2'], ['0']], True), (2, [['unmapped-atom:5']], True), (2, [['1']], False),
+                        (1, [['general']], True), (3, [['pdb-alternate:1', 'pdb-alternate:3']], True), (2, [['-1']], True),
+                        (0, [['3']], False), (3, [['2'], ['pdb-alternate:1']], True), (1, [['1']], True),
+                        (2, [['pdb-alternate:2']], False)]
+    if 'gate' not in parts:
+        gate_matrix = []
+    gate_handles = [gate_start((g[0], g[1], g[2], i) + tuple(g[3:])) for i, g in enumerate(gate_matrix[:tlc.NCPU])]
     ev.rule = ('MC: every transition of DeferredWriter (2 paths, K backup slots, every set of pre-existing files/backups, opens '
                'in w/a, discard, gate, every crash point), replayed on a real writer; SIM: behaviours of a 4-path instance; '
-               'library writers x {fresh, pre-existing}; real CLI runs x warnings x -maxwarn. Non-trivial = behaviour that '
-               'reaches finalisation with a pre-existing destination, or a crash, or a refusing gate; distinct by behaviour.')
+               'library writers x {fresh, pre-existing}; real CLI subprocesses x warnings x -maxwarn; recorded histories of the '
+               'real entry() (warning situation x -maxwarn form x path style x pre-existing files / backups with gaps x debug '
+               'dumps x every crash point x 3 exception kinds) and of the process-wide writer (consecutive runs, discard, both '
+               'modes, spellings, chdir, unwritable destinations). Non-trivial = behaviour that reaches finalisation with a '
+               'pre-existing destination, or a crash, or a refusing gate; distinct by behaviour / by command line, directory '
+               'and recorded opens.')
     ev.assumptions = ['a crash inside one file-system primitive (half-copied file) is below the step size of the model',
-                      'the same path is not opened in both w and a; mode a+ is not generated',
-                      'warning counts of CLI runs are read from the log lines on stderr']
+                      'the same path opened in both w and a: the statement does not say which mode decides how the destination '
+                      'is finalised; not part of the model-checked instance, and the judge of recorded histories admits either '
+                      'reading (what was written follows the sequential meaning: w truncates, a adds); mode a+ / r+ not generated',
+                      'two outputs on one path (-x and -o equal, -x on a molecule ITP): sequential meaning, the destination '
+                      'holds what the LAST opening in w mode wrote and the old file is backed up once',
+                      'warning counts of CLI subprocesses are read from the log lines on stderr; in-process runs read the '
+                      'counter when ignore_warnings_and_count is called',
+                      'debug dumps requested with -write-* are set aside as the statement says (may be new / overwritten at '
+                      'once, whatever the gate decides); they must exist after the run (Martinize.tla: written immediately)',
+                      'a destination that cannot be written (missing directory, parent is a file, appending to a directory): '
+                      'the statement only says that pre-existing files survive; required beyond that: every other destination is in '
+                      'a state finalisation passes through. A destination that IS a directory (w mode) is outside the vocabulary of '
+                      'the statement: only "no content is lost" is required',
+                      'temporary files: a martinize2 process must leave none behind in $TMPDIR (observed on real subprocesses)',
+                      'contents are compared line by line (sequences of line identifiers); generated appends fall on line ends']
+    if 'mc' in parts:
+        run_mc(quick, seed, ev, vd)
+    if 'sim' in parts:
+        run_sim(quick, seed, ev, vd)
+    run_snapshots(parts, seed, ev, vd, gate_matrix, gate_handles)
+    if family is not None:
+        run_histories(family, quick, ev, vd)
+
+
+def run_mc(quick, seed, ev, vd):
     paths = ['p', 'q']
     consts = {'Path': '{"p","q"}', 'K': '2', 'Tok': '{"x","y"}', 'MaxOpens': '2' if quick else '3',
               'MaxRounds': '1' if quick else '2'}
@@ -613,9 +698,10 @@ def run(tier, seed, ev, vd):
         raise tlc.MachineryError('vacuous: actions never replayed %s' % sorted(need - set(acts)))
     os.remove(dot)
     ev.extra['transitions_in_graph'] = nedges
-    for lab, c in list(acts.items())[:0]:
-        pass
 
+
+
+def run_sim(quick, seed, ev, vd):
     # simulation of a larger instance
     big = {'Path': '{"p","q","r","s"}', 'K': '3', 'Tok': '{"x","y","z"}', 'MaxOpens': '7', 'MaxRounds': '3'}
     nsim = 400 if quick else 8000
@@ -639,8 +725,6 @@ def run(tier, seed, ev, vd):
         beh = tlaval.parse_simulate_file(files[0])
         calls = ['%s(%s)' % (a, b or '') for a, b, _ in beh[1:]]
         ev.sample({'kind': 'simulated behaviour replayed on a real DeferredFileWriter', 'calls': calls})
-        for f in files[:2000]:
-            pass
     # distinct non-trivial behaviours: from simulation files (cheap re-parse of action names only)
     for f in files:
         txt = open(f).read()
@@ -648,23 +732,22 @@ def run(tier, seed, ev, vd):
         if 'Crash' in names or 'Backup' in names or 'AppendDest' in names:
             ev.nontrivial_case(re.findall(r'^\\\* <(.*?) line', txt, re.M))
 
-    # library writers + CLI gate, judged by TLC
-    events = writer_events(seed)
-    gate_matrix = [
-        (0, [], True), (2, [], True), (2, [['2']], True), (2, [['pdb-alternate:1'], ['1']], True),
-        (3, [['pdb-alternate:2', '1']], False), (1, [['pdb-alternate']], True),
-        (0, [], True, True), (0, [['model:1']], True, True), (1, [['pdb-alternate']], True, True),
-    ]
-    if not quick:
-        gate_matrix += [(3, [['pdb-alternate:2'], ['0']], True), (2, [['unmapped-atom:5']], True), (2, [['1']], False),
-                        (1, [['general']], True), (3, [['pdb-alternate:1', 'pdb-alternate:3']], True), (2, [['-1']], True),
-                        (0, [['3']], False), (3, [['2'], ['pdb-alternate:1']], True), (1, [['1']], True),
-                        (2, [['pdb-alternate:2']], False)]
-    with mp.Pool(min(tlc.NCPU, len(gate_matrix))) as pool:
-        gate_events = pool.map(_gate_run, [(g[0], g[1], g[2], i) + tuple(g[3:]) for i, g in enumerate(gate_matrix)])
+
+
+def run_snapshots(parts, seed, ev, vd, gate_matrix, gate_handles):
+    # library writers + CLI subprocesses, judged by TLC
+    events = writer_events(seed) if 'writers' in parts else []
+    gate_events = [gate_finish(h) for h in gate_handles]
+    rest = gate_matrix[len(gate_handles):]
+    while rest:
+        hs = [gate_start((g[0], g[1], g[2], i) + tuple(g[3:])) for i, g in enumerate(rest[:tlc.NCPU])]
+        gate_events += [gate_finish(h) for h in hs]
+        rest = rest[tlc.NCPU:]
     all_events = events + gate_events
+    if not all_events:
+        return
     jres, verdicts = judge([{k: v for k, v in e.items() if k not in ('stderr_tail', 'argv')} for e in all_events])
-    ev.add_tlc('TRACE Trace_Writers (writer snapshots + CLI gate runs)', jres)
+    ev.add_tlc('TRACE Trace_Writers (writer snapshots + CLI subprocesses)', jres)
     for i, e in enumerate(all_events, 1):
         ev.traces += 1
         ev.evaluations += 1
@@ -672,15 +755,63 @@ def run(tier, seed, ev, vd):
         ev.nontrivial_case([e['kind'], e.get('writer'), e.get('argv'), e.get('before')])
         if v != 'ok':
             vd.violation('trace-rejected', e, '%s %s: %s' % (e['kind'], e.get('writer', e.get('argv')), v))
-    ev.sample({'kind': 'CLI gate run judged by TLC', 'event': {k: gate_events[1][k] for k in
-                                                                ('argv', 'counts', 'specs', 'exit', 'new', 'changed', 'lost')}})
+    if len(gate_events) > 1:
+        ev.sample({'kind': 'CLI subprocess judged by TLC', 'event': {k: gate_events[1][k] for k in
+                                                                      ('argv', 'counts', 'specs', 'exit', 'new', 'changed', 'lost', 'tmp_left')}})
     ev.extra['cli_gate_runs'] = len(gate_events)
     ev.extra['library_writer_snapshots'] = len(events)
+
+
+
+def run_histories(family, quick, ev, vd):
+    from . import c07_cli
+    # the command line and the singleton as systems under test (started at the top of run())
+    m = family.collect(1500 if quick else 3000)
+    for u in m['unjudged'][:3]:
+        print('UNJUDGED C07 history: %s\n  %s\n  %s' % (u['err'], {k: u['scenario'].get(k) for k in ('fam', 'name', 'chains', 'opts', 'paths', 'mwkind')},
+                                                          (u.get('log') or '')[-400:].replace('\n', '\n  ')), file=sys.stderr)
+    if m['not_singleton']:
+        vd.violation('writer-not-shared', {'fam': 'singleton'}, 'bin/martinize2, vermouth.file_writer.deferred_open and the library '
+                     'modules do not share one DeferredFileWriter in %d processes' % m['not_singleton'])
+    for v in m['violations']:
+        vd.violation('history-rejected', v['scenario'], '%s: %s' % (v.get('argv') or v['scenario'].get('name'), v['verdict']))
+    # machinery: everything generated must have been judged, and every class of history must have occurred - unless histories
+    # were rejected (a rejected history stops being walked, so its later steps are not counted)
+    missing = [c for c in c07_cli.REQUIRED_CLASSES if not m['classes'].get(c)]
+    if not m['violations']:
+        if m['unjudged']:
+            raise tlc.MachineryError('%d recorded histories could not be judged (first: %s)' % (len(m['unjudged']), m['unjudged'][0]['err']))
+        if missing:
+            raise tlc.MachineryError('vacuous: history classes never judged: %s' % missing)
+    elif m['unjudged'] or missing:
+        print('NOTE C07: besides the rejected histories, %d histories could not be judged; classes not reached: %s' % (len(m['unjudged']), missing))
+    ev.traces += m['events'] + m['crash_points']
+    ev.evaluations += m['events'] + m['crash_points']
+    for c in m['nontrivial']:
+        ev.nontrivial_case(c)
+    for smp in m['samples'][:1]:
+        ev.sample({'kind': 'recorded history of the real command line judged by DeferredWriterJudge', 'history': smp}, limit=4)
+    ev.states += sum(t['distinct'] for t in m['tlc'])
+    ev.transitions += sum(t['generated'] for t in m['tlc'])
+    ev.tlc_runs.append({'run': 'TRACE DeferredWriterJudge (%d worker-local TLC processes)' % len(m['tlc']),
+                        'distinct_states': sum(t['distinct'] for t in m['tlc']), 'states_generated': sum(t['generated'] for t in m['tlc']),
+                        'wall_s': round(max([t['wall'] for t in m['tlc']] or [0]), 2)})
+    ev.extra['recorded_histories'] = m['events']
+    ev.extra['crash_points_in_real_command_line_and_singleton'] = m['crash_points']
+    ev.extra['finalisation_primitives_judged'] = m['primitives']
+    ev.extra['observations_exactly_as_modelled'] = '%d of %d (crash points: the directory after k primitives and the primitives executed; completed finalisations: the primitive sequence) - reported, not required' % (m['exact'], m['observed'])
+    if m['exact'] != m['observed']:
+        print('NOTE C07: %d of %d observed finalisations / crash points are safe but not exactly the modelled primitive sequence' % (m['observed'] - m['exact'], m['observed']))
+    ev.extra['history_classes'] = dict(sorted(m['classes'].items()))
+    ev.extra['histories_wall_s'] = round(m['wall'], 1)
 
 
 def replay(sc):
     global _SCRATCH
     _SCRATCH = tlc.scratch('c07r_')
+    if 'fam' in sc and sc['fam'] in ('cli', 'lib'):
+        from . import c07_cli
+        return c07_cli.replay(sc, _SCRATCH)
     if 'path' in sc:
         init = {(k.split('|')[0], int(k.split('|')[1])): tuple(v) for k, v in sc['init_fs'].items()}
         paths = sorted({k[0] for k in init})
@@ -695,13 +826,25 @@ def replay(sc):
 
 def selftest(seed):
     global _SCRATCH
+    from . import c07_cli
     _SCRATCH = tlc.scratch('c07st_')
     events = writer_events(seed)
     e = dict(events[1])
     e['after_call'] = e['after_write']          # pretend the writer by-passed deferral
     e2 = dict(events[3])
     e2['after_write'] = [[n, 0 if n.startswith('#') else c] for n, c in e2['after_write']]   # pretend the backup vanished
-    res, verdicts = judge([events[0], e, e2])
+    gate = {'kind': 'gate', 'counts': {'pdb-alternate': 2}, 'above': 0, 'specs': [], 'exit': 2, 'new': [], 'changed': [], 'lost': [],
+            'outs': ['cg.pdb'], 'preexisting': True, 'backups_ok': True, 'outs_present': False, 'tmp_left': []}
+    g2 = dict(gate, tmp_left=['tmpab12.pdb'])   # pretend the refused process left a temporary file behind
+    g3 = dict(gate, exit=0)
+    res, verdicts = judge([events[0], e, e2, gate, g2, g3])
     assert verdicts[1] == 'ok' and verdicts[2] != 'ok' and verdicts[3] != 'ok', verdicts
+    assert verdicts[4] == 'ok' and 'temporary' in verdicts[5] and 'exit-0' in verdicts[6], verdicts
     print('selftest C07: tampered writer snapshots rejected:', verdicts[2], '/', verdicts[3])
+    print('selftest C07: tampered subprocess records rejected:', verdicts[5], '/', verdicts[6])
+    # spec mutant: a backup step that always uses number 1 must be refuted by the model checker (NeverOverwrites / PreExistingSafe)
+    print('selftest C07: recorded histories (DeferredWriterJudge):')
+    ok = c07_cli.selftest(seed, _SCRATCH)
+    assert ok, 'a tampered history was accepted or a correct one rejected'
+    print('selftest C07: passed')
     return 0
